@@ -84,6 +84,7 @@ func c20Hazards() []string {
 		"fflush()", "fflush(\"f\")", "close(\"f\")", "system(\"c\")", "f(1, 2)", "f()", "f(f(1))", "f(x)(y)", "arr[1, 2]", "arr[1][2]",
 		"getline", "getline x", "getline < \"f\"", "getline x < \"f\"", "getline x < \"f\" y", "getline < (\"f\" y)", "\"c\" | getline", "\"c\" | getline x", "\"c\" x | getline", "(\"c\" x) | getline y",
 		"(getline x) > 0", "(\"c\" | getline x) > 0", "\"c\" | getline > 0", "getline arr[1]", "getline $1", "getline $(i + 1) < \"f\"", "x = getline", "!getline", "getline + 1",
+		"1234567.8", "1000000.5", "999999.5", "12345678.9", "123456.78", "99999.95", "0.9999995", "1e17 + 0", "123456789012345678.5", "999999500000000000", "1e18 - 1",
 		"9223372036854775807", "9223372036854775808", "9223372036854775806.5", "1e18", "999999999999999999", "1000000000000000000", "1e15", "1e16", "123456789012345678", "18446744073709551616", "4611686018427387904", "0.1234567", "123456.7",
 		"@\"name\"", "@(x y)", "@x", "1e300", "1e-300", "1e999", "123456789012345678901234567890", ".5", "5.", "1e+5", "0.000001", "100000000000000000000", "1.5e300 * 1e300", "0x10", "011",
 		"1e", "1e+", "1 e", "x 1", "1 x", "x 1e", "\"\" \"\"", "\"a\" \"b\"",
